@@ -18,6 +18,7 @@ from __future__ import annotations
 import ast
 import collections
 import math as _math
+import io as _io
 import functools as _functools
 import itertools as _itertools
 import re
@@ -431,6 +432,8 @@ class Interp:
                                 "defaultdict": collections.defaultdict,
                                 "OrderedDict": collections.OrderedDict,
                                 "Counter": collections.Counter}),
+            "io": StubModule("io", {"StringIO": _io.StringIO,
+                                    "BytesIO": _io.BytesIO}),
             "functools": StubModule("functools", {
                 "partial": _functools.partial, "reduce": _functools.reduce,
                 "lru_cache": _identity_decorator, "cache": lambda f: f,
@@ -628,6 +631,7 @@ class Interp:
                 return "function"
         if isinstance(obj, (str, list, tuple, dict, set, frozenset, int,
                             collections.deque, bytes, range, re.Pattern, re.Match,
+                            _io.StringIO, _io.BytesIO,
                             _Uuid,
                             type(iter([])),
                             type(iter("")), type(iter(())), float)) \
